@@ -172,3 +172,69 @@ def guarded_helpers_rule(pid):
                               "review the change (status: %s)" % (qual, why, st))
 
     return Rule("%s-A3" % pid, rule, len(table), "guarded helpers one call away from the anchors are (provably equivalent to) their reference versions")
+
+
+def _escaping_stores(fn, module_names):
+    """what a function writes that outlives the call: attributes of self / cls, and stores into / mutator calls on names that are not its own
+    locals or parameters (module-level tables, function attributes)"""
+    import ast
+    a = fn.args
+    local = {p.arg for p in a.posonlyargs + a.args + a.kwonlyargs} | ({a.vararg.arg} if a.vararg else set()) | ({a.kwarg.arg} if a.kwarg else set())
+    for n in ast.walk(fn):
+        if isinstance(n, ast.Name) and isinstance(n.ctx, ast.Store):
+            local.add(n.id)
+    out = set()
+
+    def root(e):
+        while isinstance(e, (ast.Attribute, ast.Subscript)):
+            e = e.value
+        return e.id if isinstance(e, ast.Name) else None
+    for n in ast.walk(fn):
+        if isinstance(n, (ast.Attribute, ast.Subscript)) and isinstance(n.ctx, ast.Store):
+            r = root(n)
+            if r in ("self", "cls") and isinstance(n, ast.Attribute) and isinstance(n.value, ast.Name):
+                out.add("%s.%s" % (r, n.attr))
+            elif r is not None and r not in local and r not in ("self", "cls"):
+                out.add("%s[...]" % r if isinstance(n, ast.Subscript) else "%s.%s" % (r, getattr(n, "attr", "?")))
+        elif isinstance(n, ast.Call) and isinstance(n.func, ast.Attribute) and n.func.attr in ("append", "extend", "update", "add", "setdefault", "insert", "pop", "clear", "remove"):
+            r = root(n.func.value)
+            if r is not None and r not in local and r not in ("self", "cls") and r in module_names:
+                out.add("%s.%s()" % (r, n.func.attr))
+        elif isinstance(n, (ast.Global, ast.Nonlocal)):
+            for nm in n.names:
+                out.add("global %s" % nm)
+    return out
+
+
+def new_state_rule(pid):
+    files = anchor_files(pid)
+
+    def rule(ctx):
+        """A value computed from an object's current parameters and then kept on the object (or in a module-level table) is a cache; unless it is
+        invalidated wherever those parameters can change, later results are computed from stale data.  Every function of the anchored files that also
+        exists in the reference tree may write only the attributes / module-level tables it wrote there."""
+        from .refeq import ref_tree, _units
+        for rel in files:
+            if not ctx.repo.has(rel):
+                continue
+            ref = ref_tree(rel)
+            if ref is None:
+                continue
+            cur = ctx.mod(rel).tree
+            cu, ru = _units(cur), _units(ref)
+            names_cur, names_ref = _module_bindings(cur), _module_bindings(ref)
+            n = 0
+            bad = False
+            for q, f in cu.items():
+                if q not in ru:
+                    continue
+                n += 1
+                new = _escaping_stores(f, names_cur) - _escaping_stores(ru[q], names_ref)
+                for w in sorted(new):
+                    bad = True
+                    ctx.violation("%s:%s" % (rel, q), "new-state:%s" % w, "`%s` now writes `%s`, which outlives the call and which its reference version did not write: "
+                                  "a value kept across calls (a cache?) must be invalidated wherever its inputs can change" % (q, w), node=f)
+            if not bad:
+                ctx.holds(rel, "no-new-state", examined=max(n, 1))
+
+    return Rule("%s-A4" % pid, rule, 1, "no new state kept across calls: functions write only the attributes / module-level tables their reference versions wrote")
